@@ -1,5 +1,6 @@
 import Tx3Proofs.C07
 import Tx3Proofs.C07Reduce
+import Tx3Proofs.C07Confluence
 #print axioms Tx3.Expr.C07_args_fees
 #print axioms Tx3.Expr.C07_args_inputs
 #print axioms Tx3.Expr.C07_fees_inputs
@@ -13,3 +14,12 @@ import Tx3Proofs.C07Reduce
 #print axioms Tx3.C07_reduce_not_idempotent_without_WF
 #print axioms Tx3.C07_stages_preserve_WF
 #print axioms Tx3.C07_reduce_preserves_WF
+#print axioms Tx3.reduce_sealed
+#print axioms Tx3.confl_args
+#print axioms Tx3.reduceF_det
+#print axioms Tx3.confl_stage
+#print axioms Tx3.Stage.isStage
+#print axioms Tx3.C07_reduce_commutes_with_stage
+#print axioms Tx3.C07_reduce_then_stage
+#print axioms Tx3.C07_two_stages
+#print axioms Tx3.sealedb_Sealed
